@@ -103,6 +103,14 @@ func (f *Formatter) Format(vcl *ast.VCL) io.Reader {
 	// If all declarations should be sorted, do it
 	if f.conf.SortDeclaration {
 		decls.Sort()
+		// Sorting moves declarations away from the empty lines which separated them,
+		// so separate the sorted declarations by one empty line uniformly
+		for i := range decls {
+			decls[i].Buffer = strings.TrimLeft(decls[i].Buffer, "\n")
+			if i > 0 {
+				decls[i].Buffer = "\n" + decls[i].Buffer
+			}
+		}
 	}
 
 	buf := bufferPool.Get().(*bytes.Buffer) // nolint:errcheck
